@@ -457,16 +457,10 @@ static Outcome analyse(const Input& in)
 
 static volatile sig_atomic_t g_inWatch = 0;
 static void onTimer(int) { _exit(3); }
-extern "C" void __sanitizer_print_stack_trace(void);
-// solo re-run with the long limit: say where the analysis is before giving up (the process ends here anyway)
-static void onTimerTrace(int)
-{
-    static const char m[] = "WATCHDOG: still running after the long limit; stack:\n";
-    (void)!write(2, m, sizeof m - 1);
-    __sanitizer_print_stack_trace();
-    _exit(3);
-}
-
+// solo re-run with the long limit.  Nothing is printed from the handler (not async-signal-safe, it deadlocked in practice);
+// the driver finds the phase of a hang by attaching a debugger to a replay (props/C13.py: probe_phase).
+static void onTimerTrace(int) { _exit(3); }
+static double g_wallFactor = 6;   // wall-clock backstop = factor x CPU limit (+2 s)
 static void armWatchdog(double cpuSeconds)
 {
     struct itimerval it;
@@ -474,7 +468,7 @@ static void armWatchdog(double cpuSeconds)
     it.it_value.tv_sec = (time_t)cpuSeconds;
     it.it_value.tv_usec = (suseconds_t)((cpuSeconds - (double)(time_t)cpuSeconds) * 1e6);
     setitimer(ITIMER_PROF, &it, nullptr);
-    alarm((unsigned)(cpuSeconds * 6) + 2);     // wall-clock backstop (sleep / deadlock)
+    alarm((unsigned)(cpuSeconds * g_wallFactor) + 2);     // wall-clock backstop (sleep / deadlock / starved machine)
 }
 static void disarmWatchdog()
 {
@@ -484,6 +478,7 @@ static void disarmWatchdog()
     alarm(0);
 }
 
+static void onWallInconclusive(int) { _exit(6); }
 static double g_deadlineAbs = 0;   // children of block jobs stop between two inputs once this wall-clock time has passed
 static double wallNow()
 {
@@ -495,7 +490,10 @@ static void runRange(int slotNo, uint64_t from, uint64_t to, double limit, bool 
 {
     Slot& sl = g_sh->slot[slotNo];
     signal(SIGPROF, trace ? onTimerTrace : onTimer);
-    signal(SIGALRM, trace ? onTimerTrace : onTimer);
+    // alone with the long limit: only used-up CPU time makes a hang; running out of wall-clock time first (starved machine)
+    // is reported as inconclusive (status 6)
+    signal(SIGALRM, trace ? onWallInconclusive : onTimer);
+    if (trace) g_wallFactor = 2.4;
     for (uint64_t i = from; i < to; ++i) {
         if (stopAtDeadline && g_deadlineAbs > 0 && wallNow() > g_deadlineAbs) { sl.cur = i; _exit(5); }
         const Input in = gen(i);
@@ -696,7 +694,10 @@ static int master(const std::string& tier, int jobs, double deadlineS, double li
             Record rec;
             const Input in = gen(at);
             rec.index = at; rec.confirmed = 1; rec.blockFrom = at;
-            if (timeout) {
+            if (WIFEXITED(st) && WEXITSTATUS(st) == 6) {
+                rec.type = "timeout-inconclusive";
+                rec.status = "alone: wall-clock backstop reached before the CPU limit (machine too busy to tell slow from hanging)";
+            } else if (timeout) {
                 rec.type = in.tolerateTimeout ? "timeout-tolerated" : "hang";
                 char b[80]; std::snprintf(b, sizeof b, "no result within %.0f CPU seconds", limit * 5);
                 rec.status = b;
